@@ -173,6 +173,11 @@ pub fn conclude(cfg: &CheckCfg, mut agg: Agg, scratch: &Path, started: Instant) 
                     let again = crate::runner::run_one(&mut ctx, &rec.scenario);
                     match again.verdicts.iter().find(|v| v.class == rec.class) {
                         Some(v) => (v.detail.clone(), again.sig, rec.scenario.clone()),
+                        None if prop == "C13" => {
+                            // a side effect outside the scratch tree (the very thing C13 is about) can
+                            // change what the next run of the same scenario does
+                            (format!("{} [not reproduced when the scenario was run again: the first run's effect outside the scratch tree may persist]", rec.detail), rec.sig, rec.scenario.clone())
+                        }
                         None => {
                             eprintln!("HARNESS-ERROR: violation {} of {}#{} did not reproduce when re-run", rec.class, rec.campaign, rec.first_index);
                             return 2;
